@@ -119,6 +119,9 @@ HL_PRIMS = {
     'up0.3': (lambda p: p.up(0.3), (0, 0, 0.3), None),
     'down0.3': (lambda p: p.down(0.3), (0, 0, -0.3), None),
     'down1.0': (lambda p: p.down(1.0), (0, 0, -1.0), None),
+    'down0.5': (lambda p: p.down(0.5), (0, 0, -0.5), None),
+    'go_to_z0': (lambda p: p.go_to(0.5, 0.5, 0.0), ('abs', 0.5, 0.5, 0.0), None),
+    'set_landing_height0.0': (lambda p: p.set_landing_height(0.0), ('landing', 0.0), None),
     'move_diag': (lambda p: p.move_distance(0.3, -0.4, 0.1), (0.3, -0.4, 0.1), None),
     'go_to': (lambda p: p.go_to(1.0, 2.0, 0.7, 0.25), ('abs', 1.0, 2.0, 0.7), 0.25),
     'go_to_default_z': (lambda p: p.go_to(-1.0, 0.5), ('abs', -1.0, 0.5, 'default_height'), None),
